@@ -278,3 +278,18 @@ CONTROLS4 = [HOMONYMOUS_TEST_AND_SUBSUITE, HOMONYMOUS_TEST_AND_SUBSUITE_SEQ, HOM
 # ordinary Exceptions for `_handler_loop`; the last three are not caught by its `except Exception` (finding D42).
 PROTOCOL_FAULTS = [dict(EMPTY_BACKEND_ERROR, fault={"k": 3, "cls": c, "text": "backend boom"})
                    for c in ("StopIteration", "StopAsyncIteration", "GeneratorExit", "SystemExit", "KeyboardInterrupt")]
+
+# several `pre_run` fixtures depending on one another, a LATER one failing in its setup: `db` (generator) <- `schema`
+# (generator) <- `data` (setup raises).  The session is not run; `schema` then `db` — already set up — are torn down once.
+_RAISE_EXC = {"a": "raise", "kind": "exc"}
+PRE_RUN_CHAIN_LATER_SETUP_FAILS = _case(
+    _p([_s("s0", [_t("t0", ["f2"], [_LOG]), _t("t1", [], [_LOG], rank=2)])],
+       [_f("f0", "pre_run", [], teardown=[]), _f("f1", "pre_run", [], teardown=[], params=["f0"]),
+        _f("f2", "pre_run", [_RAISE_EXC], teardown=[], params=["f1"])]),
+    _cfg(1))
+# ... the same with two independent fixtures used by different tests, and an earlier teardown that raises as well
+PRE_RUN_SECOND_SETUP_FAILS = _case(
+    _p([_s("s0", [_t("t0", ["f0"], [_LOG]), _t("t1", ["f1"], [_LOG], rank=2)])],
+       [_f("f0", "pre_run", [], teardown=[_RAISE_EXC]), _f("f1", "pre_run", [_RAISE_EXC])]),
+    _cfg(2))
+PRE_RUN_CONTROLS = [PRE_RUN_CHAIN_LATER_SETUP_FAILS, PRE_RUN_SECOND_SETUP_FAILS]
